@@ -128,6 +128,35 @@ def ob_match0(n, v, a0=None, a1=None, a2=None, a3=None, a4=None, a5=None) -> Opt
     return same(L._match(v, vec, 0), _ref_match0(v, vec))
 
 
+def ob_match_twice(mt, v: Union[int, bool], w: Union[int, bool], a0: Union[int, bool], a1: Union[int, bool],
+                   b0: Union[int, bool]) -> Optional[bool]:
+    """two lookups in one history (same process state): each is answered on its own merits, also when the second differs
+    from the first only in number-versus-logical type (1 / TRUE, 0 / FALSE compare equal in Python)"""
+    vals = []
+    for x in (v, w, a0, a1, b0):
+        # the five operands range over {0, 1, FALSE, TRUE}: branch them into Python constants, so that the two calls
+        # can run with the tracer off (CrossHair by-passes functools.lru_cache under tracing, which would hide
+        # exactly the process state this obligation is about)
+        if isinstance(x, bool):
+            vals.append(True if x else False)
+        elif x == 0:
+            vals.append(0)
+        elif x == 1:
+            vals.append(1)
+        else:
+            return None
+    v, w, a0, a1, b0 = vals
+    from vf import wb
+    with wb.notrace():
+        first = L._match(v, (a0, a1), mt)
+        second = L._match(w, (b0, a1), mt)
+    if mt == 0:
+        return same(first, _ref_match0(v, (a0, a1))) and same(second, _ref_match0(w, (b0, a1)))
+    if not (_sorted_asc((a0, a1)) and _sorted_asc((b0, a1))):
+        return None
+    return _check_best(v, (a0, a1), first, True) and _check_best(w, (b0, a1), second, True)
+
+
 def ob_match1(n, v, a0=None, a1=None, a2=None, a3=None, a4=None, a5=None) -> Optional[bool]:
     """on ascending data _match(v, a, 1) holds the largest value <= v of v's type, else #N/A"""
     vec = _vec(n, a0, a1, a2, a3, a4, a5)
@@ -367,6 +396,8 @@ def obligations(tier):
                 timeout=120 if n < 5 else 400, group="match")
         for n in nmix:
             add(f"{f[3:]}[mixed,n={n}]", f, (n,), _sig(n, MIXEDV, MIXED), timeout=150 if n < 3 else 900, group="match")
+    for mt in (0, 1):
+        add(f"match_twice[{mt}]", "ob_match_twice", (mt,), timeout=200, group="match")
     for column in (True, False):
         for mt in (0, 1):
             for n in ((1, 2) if tier == "quick" else (1, 2, 3)):
